@@ -58,6 +58,100 @@ macs = hmac-sha2-256-etm@openssh.com, hmac-sha2-512
 '''
 
 
+def unreachable_leg(ck, S, singles):
+    """A target that cannot be reached (refused, unresolvable, timing out) among healthy ones, in every position: the healthy
+    targets' results are their single-target results (text mode; the JSON framing of failed targets is C08's finding)."""
+    names = sorted(S)[:2]
+    scs, meta = [], []
+    for bad in (('refused',), ('unresolvable',), ('timeout',)):
+        for pos in range(3):
+            lst = [('server', S[names[0]]), ('server', S[names[1]])]
+            lst.insert(pos, bad)
+            for threads in (1, 3):
+                sc, labels = multi.scenario(lst, threads, None, json_out=False)
+                scs.append(sc)
+                meta.append((bad[0], pos, threads, labels, [x for x in (names[0], names[1])]))
+    for (bad, pos, threads, labels, hn), sc, r in zip(meta, scs, runner.run_many(scs)):
+        ck.evaluated()
+        if r.get('harness_error') or r.get('hang'):
+            raise common.Machinery('run with an unreachable target failed: %r' % (r.get('harness_error') or 'hang'))
+        replay = {'unreachable': bad, 'position': pos, 'threads': threads, 'argv': sc['argv'], 'exit': r['exit'], 'stdout': r['stdout'][-3000:]}
+        blocks = {}
+        for b in multi.split_text(r['stdout']):
+            lab = multi.label_of_block(b, labels)
+            if lab:
+                blocks.setdefault(lab, []).append(b)
+        ok = True
+        hi = 0
+        for i, lab in enumerate(labels):
+            if i == pos:
+                continue
+            name = hn[hi]
+            hi += 1
+            ref = multi.normalise_single(singles[(name, False, False, i)]['stdout'])
+            bl = blocks.get(lab, [])
+            if len(bl) != 1 or multi.strip_target_line(bl[0]).rstrip('\n') != ref:
+                ck.violation('isolation view=text channel=unreachable-neighbour kind=%s' % bad,
+                             'target %s (%s) listed with a %s target at position %d, %d thread(s): %d blocks, expected exactly its single-target report'
+                             % (lab, name, bad, pos + 1, threads, len(bl)), replay)
+                ok = False
+        if ok:
+            ck.cov['traces_validated_against_impl'] += 1
+            ck.nontrivial(('unreachable', bad, pos, threads))
+
+
+def granular_leg(ck):
+    """-g over a target list: the sizes listed for a target are those its own server hands out, whatever the other targets hand out."""
+    from harness import peers
+    def srv(moduli, gex=True):
+        kex = ['curve25519-sha256'] + (['diffie-hellman-group-exchange-sha256'] if gex else [])
+        return peers.ServerCfg(banner=b'SSH-2.0-Generic_1.0', kexinit={'kex': kex, 'key': ['ssh-ed25519'], 'enc': ['aes128-ctr'], 'mac': ['hmac-sha2-256'], 'comp': ['none']},
+                               hostkeys={'ssh-ed25519': peers.ed25519_blob()}, gex=({'style': 'strict', 'moduli': moduli} if gex else None))
+    A, B, C = srv([2048, 3072, 4096]), srv([4096]), srv([], gex=False)
+    arg = '2048,3072,4096'
+    singles = {}
+    sscs = []
+    for i, cfg in enumerate((A, B, C)):
+        for pos in range(3):
+            sscs.append(multi.single_scenario(('server', cfg), pos, json_out=True, extra=['-g', arg]))
+    sres = runner.run_many(sscs)
+    k = 0
+    for i in range(3):
+        for pos in range(3):
+            singles[(i, pos)] = sres[k]['stdout']
+            k += 1
+    scs, meta = [], []
+    for order in ((0, 1, 2), (2, 1, 0), (1, 0, 2), (0, 2, 1)):
+        for threads in (1, 3):
+            tg = [('server', (A, B, C)[i]) for i in order]
+            sc, labels = multi.scenario(tg, threads, tuple(range(3)) if threads == 1 else None, json_out=True, extra=['-g', arg])
+            scs.append(sc)
+            meta.append((order, threads))
+    for (order, threads), sc, r in zip(meta, scs, runner.run_many(scs)):
+        ck.evaluated()
+        if r.get('harness_error') or r.get('hang'):
+            raise common.Machinery('-g target-list run failed: %r' % (r.get('harness_error') or 'hang'))
+        replay = {'order': order, 'threads': threads, 'argv': sc['argv'], 'exit': r['exit'], 'stdout': r['stdout'][-2000:]}
+        # every single-target document must occur in the output as often as that server is listed, and nothing else
+        out = r['stdout']
+        ok = True
+        for pos, i in enumerate(order):
+            want = singles[(i, pos)].strip()
+            if want and out.count(want) < 1:
+                ck.violation('isolation view=json channel=granular-gex', 'target %d of %r (%d thread(s)) with -g %s: its own result %r does not appear in the output'
+                             % (pos + 1, order, threads, arg, want[:200]), replay)
+                ok = False
+                break
+        ntables = out.count('dh-gex-modulus-size')
+        if ok and ntables != 2:
+            ck.violation('isolation view=json channel=granular-gex', '%d modulus tables printed for a list with two group-exchange servers and one without (%r, %d thread(s))'
+                         % (ntables, order, threads), replay)
+            ok = False
+        if ok:
+            ck.cov['traces_validated_against_impl'] += 1
+            ck.nontrivial(('granular', order, threads))
+
+
 def ports_leg(ck, S, singles):
     """Targets-file lines with and without a port, in every order: the port a target is scanned on is its own (the line's, or the
     -p / default port), never a neighbour's, and its result is the single-target result."""
@@ -213,6 +307,8 @@ def run(tier):
         traces.append(tr)
         tmeta.append(m)
     ports_leg(ck, S, singles)
+    unreachable_leg(ck, S, singles)
+    granular_leg(ck)
     verdicts = multi.validate(ck, traces)
     for m, tr, (ok, info) in zip(tmeta, traces, verdicts):
         if ok:
